@@ -124,7 +124,7 @@ def run(tier, seed, focus=None):
     specs, notes = R.indicator_specs(thorough)
     rep.notes.extend(notes)
     only = rep.focus_group()
-    kinds = ["random", "gappy", "dup", "sawtooth", "volatile_then_flat", "patterns"] if thorough else ["random", "gappy", "patterns"]
+    kinds = ["random", "gappy", "dup", "sawtooth", "volatile_then_flat", "patterns"] if thorough else ["random", "gappy", "patterns", "dup"]
     n_out = 40
     both_raise = 0
     prefix_raise = 0
@@ -137,6 +137,8 @@ def run(tier, seed, focus=None):
             for kind in kinds:
                 if kind == "patterns" and (tf is not None) and (not thorough or not spec.key.startswith("Amorph/")):
                     continue  # hand-shaped candles: base timeframe (thorough: pattern/movement wrappers on every timeframe)
+                if not thorough and kind == "dup" and (tf is not None or spec.key.split("/")[0] not in ("EMA", "OBV", "MACD", "ATR", "VWAP")):
+                    continue  # quick tier: repeated timestamps on the base timeframe, a few indicator classes
                 if not thorough and (tf is not None) and (kind == "gappy") != fill:
                     continue  # quick tier: gaps with fill, dense stream without
                 sseed = R.sub_seed(seed, spec.label, tf, fill, kind)
